@@ -549,10 +549,34 @@ impl Ctx {
 // Transform an expression under a given substitution; queue any needed instances
 fn mono_expr(ctx: &mut Ctx, e: &core::Expr, s: &Subst) -> MonoExpr {
     match e.clone() {
-        core::Expr::EVar { name, ty } => MonoExpr::EVar {
-            name,
-            ty: subst_ty(&ty, s),
-        },
+        core::Expr::EVar { name, ty } => {
+            let new_ty = subst_ty(&ty, s);
+            // A generic function used as a value (`let f: (int32) -> int32 = id;`) is
+            // instantiated at the function type the context gives it.
+            if let Ty::TFunc { params, ret_ty } = &new_ty
+                && !has_tparam(&new_ty)
+                && let Some(callee) = ctx.orig_fns.get(&name)
+                && fn_is_generic(callee)
+                && callee.params.len() == params.len()
+            {
+                let mut value_subst: Subst = IndexMap::new();
+                let unified = callee
+                    .params
+                    .iter()
+                    .zip(params.iter())
+                    .all(|((_, pt), at)| unify(pt, at, &mut value_subst).is_ok())
+                    && unify(&callee.ret_ty, ret_ty, &mut value_subst).is_ok();
+                if unified && !value_subst.values().any(has_tparam) {
+                    let generic_name = callee.name.clone();
+                    let spec = ctx.ensure_instance(&generic_name, value_subst);
+                    return MonoExpr::EVar {
+                        name: spec,
+                        ty: new_ty,
+                    };
+                }
+            }
+            MonoExpr::EVar { name, ty: new_ty }
+        }
         core::Expr::EPrim { value, ty } => {
             let ty = subst_ty(&ty, s);
             MonoExpr::EPrim { value, ty }
